@@ -31,6 +31,7 @@ type cacheWorld struct {
 	res   *simcore.Result
 	c     *kademlia.Cache[int]
 	locus []byte
+	extra int // keys are this many bytes longer than the locus
 	max   int
 	minPB int
 	model map[string]*mEntry
@@ -98,10 +99,19 @@ func (w *cacheWorld) bucketOf(key []byte) int {
 func (w *cacheWorld) genKey() []byte {
 	st := w.st
 	n := len(w.locus)
-	k := make([]byte, n)
+	k := make([]byte, n+w.extra)
+	if w.extra > 0 {
+		// keys longer than the locus (DHTNode truncates the locus of small caches): a random tail
+		st.Bytes(k[n:])
+		if st.Bool(1, 3) {
+			for i := n; i < len(k); i++ {
+				k[i] &= 0x01 // many ties on the part the locus covers
+			}
+		}
+	}
 	switch st.Intn(6) {
 	case 0: // anywhere
-		st.Bytes(k)
+		st.Bytes(k[:n])
 	case 1, 2: // share a random number of leading bits with the locus
 		copy(k, w.locus)
 		bit := st.Intn(n*8 + 1)
@@ -117,8 +127,8 @@ func (w *cacheWorld) genKey() []byte {
 			}
 		}
 	case 3: // small universe
-		st.Bytes(k)
-		for i := range k {
+		st.Bytes(k[:n])
+		for i := range k[:n] {
 			k[i] &= 0x0f
 		}
 	case 4: // an existing key
@@ -423,6 +433,9 @@ func newCacheWorld(st *simcore.Stream, res *simcore.Result) *cacheWorld {
 			w.locus[i] = 0
 		}
 	}
+	if n < 32 && st.Bool(1, 3) {
+		w.extra = []int{1, 2, 32 - n}[st.Intn(3)]
+	}
 	w.minPB = []int{0, 1, 1, 2}[st.Intn(4)]
 	base := w.minPB * 8 * n
 	switch st.Intn(5) {
@@ -444,7 +457,7 @@ func newCacheWorld(st *simcore.Stream, res *simcore.Result) *cacheWorld {
 		w.max, w.minPB = 0, 0
 	}
 	w.guard("NewCache", func() { w.c = kademlia.NewCache[int](w.locus, w.max, w.minPB) })
-	res.Cfg = map[string]any{"locus": fmt.Sprintf("%x", w.locus), "max": w.max, "minPerBucket": w.minPB}
+	res.Cfg = map[string]any{"locus": fmt.Sprintf("%x", w.locus), "max": w.max, "minPerBucket": w.minPB, "keyBytesBeyondLocus": w.extra}
 	return w
 }
 
